@@ -23,7 +23,10 @@ THEOREMS = ['Props.C19.' + t for t in [
     'nearestFirst_is_nearest',
     'block_mapping_total_partial', 'block_mapping_spec_partial', 'block_mapping_atmosphere_partial',
     'block_mapping_identity',
-    'block_mapping_keyerror_src1_tgt0', 'block_mapping_keyerror_src2_tgt0', 'block_mapping_keyerror_general']]
+    'block_mapping_keyerror_src1_tgt0', 'block_mapping_keyerror_src2_tgt0', 'block_mapping_keyerror_general',
+    'incon_transfer_underground', 'incon_transfer_atmosphere_single', 'incon_average_value',
+    'incon_transfer_atmosphere_percolumn', 'incon_transfer_total_partial',
+    'rocktype_transfer_spec', 'rocktype_transfer_identity']]
 LEVEL_TEXT = ('Proof: Lean theorems about an executable model of block_mapping/column_mapping/layer_mapping, '
               't2incon.transfer_from and the t2data generator/rock-type transfer: totality and existence in the source, '
               'nearest column / nearest layer / first layer below ground, identity on self, the 3x3 atmosphere table of the '
